@@ -342,6 +342,8 @@ func (r *runtime) InstantiateModule(
 		if code.closeWithModule {
 			_ = code.Close(ctx) // don't overwrite the error
 		}
+		// Nor what the system context holds already (e.g. bound listeners): there is no module to close.
+		_ = sysCtx.FS().Close()
 		return nil, err
 	}
 
